@@ -129,12 +129,17 @@ def evaluate(case):
         res = printer(value, no_color=True)
         text = str(res)
         lines = [ln.plain_text() for ln in printer(value, no_color=True)]
+        # the same, but every line object is kept and only looked at after the iteration is over
+        kept = list(printer(value, no_color=True))
+        lines_kept = [P.CHText(ln).plain_text() for ln in kept]
         if colored is not None and P.CHText.strip_colors(colored) != text:
             f.append(("colored_output_differs_from_no_color_output", f"{colored[:200]!r} vs {text[:200]!r}"))
     except Exception as e:   # noqa
         return Outcome(True, sorted(info), [("printer_raises_" + type(e).__name__, f"{e}")])
     if "\n".join(lines) != text:
         f.append(("lines_differ_from_whole_text", f"{text!r} vs lines {lines!r}"))
+    elif lines_kept != lines:
+        f.append(("lines_collected_first_differ_from_whole_text", f"{text[:300]!r} vs lines {lines_kept[:8]!r}"))
     if "\x1b" in text:
         f.append(("escape_in_no_color_output", repr(text[:200])))
     try:
